@@ -61,6 +61,14 @@ def shapes(rng, per=1):
         "main:\n    jal f\n    li a7, 10\n    ecall\nf:\n    ret\n    ret\n",
         "main:\n    jal f\n    li a7, 10\n    ecall\nf:\n    beqz a0, skip\n    ret\nskip:\n    ret\n",
     ]
+    # several labels on one instruction, some called, some jumped to, some only loaded
+    for first, second in (("fn", "fn_loop"), ("fn_loop", "fn")):
+        for sep in ("\n", " "):
+            for use in ("bnez a0, fn_loop", "j fn_loop", "bne a0, zero, fn_loop", "la t0, fn_loop"):
+                out.append((f"main:\n    li a0, 3\n    jal fn\n    li a7, 10\n    ecall\n{first}:{sep}{second}:\n"
+                            f"    addi a0, a0, -1\n    blez a0, fn_done\n    {use}\nfn_done:\n    ret\n", "ok"))
+    out.append(("main:\n    jal f\n    jal g\n    j h\nback:\n    li a7, 10\n    ecall\nf:\ng:\nh:\n    addi a0, a0, 1\n"
+                "    beqz a1, back\n    ret\n", "ok"))
     for t in oks:
         out.append((t, "ok"))
     rng.shuffle(out)
